@@ -28,12 +28,13 @@ ALL_FEATURES = frozenset({
     "narrow_cond_arms",             # ?: arms narrower than int
     "const_cond",                   # ?: with a compile-time constant condition (dead arm mentions live operands)
     "const_cmp",                    # comparison of two compile-time constants used as a condition
+    "cmp_init",                     # comparison directly as initialiser / assigned value
 })
 
 # frozen feature list used by the static checks C10-C12 (explicit: later additions to ALL_FEATURES do not leak in)
-STATIC_FEATURES = frozenset({'narrow', 'widen_unsigned_from_signed', 'hyb_unused_stmt', 'explicit', 'hyb_stmtexpr', 'jump', 'const_cmp', 'cmp_narrow', 'imm', 'hyb_inc', 'compound_assign_narrow', 'alias', 'const_cond', 'sizeof', 'hyb_call', 'suffix_literal', 'mem', 'cond', 'logical_mixed', 'if', 'shift', 'unary', 'loop', 'hyb_in_cond_arm', 'compound_assign', 'cast', 'calls_mixed_tmp_width', 'hyb_in_logical', 'narrow_cond_arms', 'cmp_value', 'big_literal', 'pred', 'div', 'narrow_shift_left', 'new', 'logical'})
+STATIC_FEATURES = frozenset({'cmp_init', 'narrow', 'widen_unsigned_from_signed', 'hyb_unused_stmt', 'explicit', 'hyb_stmtexpr', 'jump', 'const_cmp', 'cmp_narrow', 'imm', 'hyb_inc', 'compound_assign_narrow', 'alias', 'const_cond', 'sizeof', 'hyb_call', 'suffix_literal', 'mem', 'cond', 'logical_mixed', 'if', 'shift', 'unary', 'loop', 'hyb_in_cond_arm', 'compound_assign', 'cast', 'calls_mixed_tmp_width', 'hyb_in_logical', 'narrow_cond_arms', 'cmp_value', 'big_literal', 'pred', 'div', 'narrow_shift_left', 'new', 'logical'})
 
-SAFE_CORE = frozenset({"cond", "cast", "unary", "shift", "if", "loop", "compound_assign", "imm", "mem", "logical"})
+SAFE_CORE = frozenset({"cond", "cast", "unary", "shift", "if", "loop", "compound_assign", "imm", "mem", "logical", "cmp_init"})
 
 
 def num(v, ty=None, text=None):
@@ -353,9 +354,16 @@ def assign_stmt(draw, env, depth, allow_hybrid):
         kinds = ["aliasw"]
     k = draw(st.sampled_from(kinds))
     compound = "compound_assign" in f and k in ("var", "rw") and draw(st.integers(0, 2)) == 0
+    cmp_rhs = "cmp_init" in f and not compound and draw(st.integers(0, 5)) == 0
+    if cmp_rhs:
+        # a comparison (or && / || of two comparisons) directly as initialiser / assigned value: bool -> integer
+        def rhs_():
+            if draw(st.booleans()):
+                return draw(cmp_expr(env, 1))
+            return ("bin", draw(st.sampled_from(["&&", "||"])), draw(cmp_expr(env, 1)), draw(cmp_expr(env, 1)))
     if k == "newvar":
         t = draw(st.sampled_from(_types(env)))
-        e = draw(expr(env, depth, allow_hybrid))
+        e = rhs_() if cmp_rhs else draw(expr(env, depth, allow_hybrid))
         n = env.fresh()
         env.vars[n] = t
         return ("decl", t, n, e, False)
@@ -385,7 +393,7 @@ def assign_stmt(draw, env, depth, allow_hybrid):
         else:
             rhs = draw(expr(env, depth, allow_hybrid))
         return ("expr", ("assign", op, lhs, rhs))
-    return ("expr", ("assign", "=", lhs, draw(expr(env, depth, allow_hybrid))))
+    return ("expr", ("assign", "=", lhs, rhs_() if cmp_rhs else draw(expr(env, depth, allow_hybrid))))
 
 
 @st.composite
